@@ -293,7 +293,7 @@ where
 
     match result {
         Ok(sol) => {
-            let (t, y, t_events, y_events, dense_raw) = default_solout.into_payload();
+            let (t, y, t_events, y_events, dense_raw) = default_solout.into_payload(sol.status == crate::status::Status::Success);
             let continuous_sol = if options.dense_output {
                 Some(ContinuousOutput::from_segments(options.method, n_states, dense_raw))
             } else {
